@@ -139,6 +139,39 @@ def run(ctx):
             if dv:
                 trs.append({"tid": len(trs) + 1, "seq": list(seq), "ev": dv, "history": "random series"})
         hist_trs.append({"tid": i + 1, "ev": ev})
+    # beyond the bound: nine sites (512 phosphostates) against fresh objects of the substituted sequences
+    seq9 = "".join(ctx.rng.choice("KEGQ") + ctx.rng.choice("STY") for _ in range(12))
+    o9 = lc.SP(seq9)
+    sites9 = ctx.rng.sample([i + 1 for i, ch in enumerate(seq9) if ch in "STY"], 9)
+    common.call(o9.set_phosphosites, sites9)
+    d9 = common.call(o9.get_full_phosphostatus_kappa_distribution, limit=600)
+    ctx.evaluations += 1
+    if d9[0] != "ok" or len(d9[1]) != 512:
+        ctx.violation("distribution-size", {"seq": seq9, "sites": sites9}, expected=512, actual=d9[:2] if d9[0] != "ok" else len(d9[1]))
+    else:
+        for k in [0, 1, 2, 255, 256, 257, 510, 511] + ctx.rng.sample(range(512), 24):
+            bits = [(k >> (8 - j)) & 1 for j in range(9)]
+            sub = list(seq9)
+            for bsite, bit in zip(sites9, bits):
+                if bit:
+                    sub[bsite - 1] = "E"
+            ref = lc.SP("".join(sub))
+            t = d9[1][k]
+            want = (ref.get_kappa(), ref.get_fraction_positive(), ref.get_fraction_negative(), ref.get_FCR(), ref.get_NCPR(), ref.get_mean_hydropathy())
+            if [int(x) for x in t[6]] != bits:
+                ctx.violation("distribution-order", {"seq": seq9, "sites": sites9, "entry": k}, expected=bits, actual=list(t[6]))
+                break
+            if any(not common.close(a, __import__("fractions").Fraction(float(b))) for a, b in zip(t[:6], want)):
+                ctx.violation("distribution-values", {"seq": seq9, "sites": sites9, "entry": k}, expected=want, actual=t[:6])
+                break
+    # one request of more than 100 positions in arbitrary order
+    seq150 = "".join(ctx.rng.choice("STYSTYKEG") for _ in range(220))
+    o150 = lc.SP(seq150)
+    req = [ctx.rng.randint(-3, 224) for _ in range(ctx.rng.randint(130, 180))]
+    common.call(o150.set_phosphosites, req)
+    hist_trs.append({"tid": len(hist_trs) + 1, "ev": [
+        {"kind": "construct", "obj": 1, "seq": list(seq150), "post": {"objs": [objmodel.project(lc.SP(seq150))], "spGrps": 0}},
+        {"kind": "set_phosphosites", "obj": 1, "arg": req, "post": {"objs": [objmodel.project(o150)], "spGrps": 0}}]})
     c15.validate_histories(ctx, hist_trs, 1)
     for t in trs:
         t["after"] = t.pop("history")
